@@ -454,6 +454,24 @@ func Run(j *job.Job, s *job.Sink) {
 			ops = append(ops, tail...)
 			s.Count("histories_with_a_search_path_that_grows", 1)
 		}
+		// One history in 300 is the witness of a recorded finding and nothing else (recorded
+		// finding c18-revision-date-import-binds-by-what-is-loaded): a module that imports
+		// a@2019-01-01 by revision-date is read from a directory that holds that revision; a
+		// processing run fetches it; then a@2020-01-01 is loaded and the set processed again.
+		// The import stays with the revision it names. A fresh set given the same loads never
+		// fetches a@2019-01-01, because by then another revision of a is loaded, and binds the
+		// import to that one.
+		historyKind := ""
+		if c%300 == 11 {
+			historyKind = "revision-date-import-fetched-before-a-newer-revision-arrives"
+			ops = []op{
+				{"goodreadrev", "zzn.yang", "module zzn {\n  namespace \"urn:zzn\";\n  prefix zn;\n  import zza { prefix a; revision-date 2019-01-01; }\n  leaf l { type a:t; }\n}\n"},
+				{Kind: "process"},
+				{"load", "zza@2020-01-01.yang", "module zza {\n  namespace \"urn:zza\";\n  prefix a;\n  revision 2020-01-01;\n  typedef t { type int8 { range \"0..20\"; } }\n}\n"},
+				{Kind: "process"},
+			}
+			s.Count("witness_histories", 1)
+		}
 		s.Current(c, ops)
 		s.Count("histories", 1)
 		nproc, nbad := 0, 0
@@ -478,6 +496,7 @@ func Run(j *job.Job, s *job.Sink) {
 				facts = map[string]any{}
 			}
 			facts["semantic_error_text_in_history"] = semantic
+			facts["history_kind"] = historyKind
 			s.Violation(c, j.CaseID(c), "C18.history", class, detail, ops, facts)
 		}
 		func() {
@@ -518,6 +537,20 @@ func Run(j *job.Job, s *job.Sink) {
 						return
 					}
 					failedLoads++
+				case "goodreadrev":
+					dir, err := os.MkdirTemp(".", "goodreadrev")
+					if err != nil {
+						continue
+					}
+					os.WriteFile(filepath.Join(dir, o.Name), []byte(o.Text), 0o644)
+					os.WriteFile(filepath.Join(dir, "zza@2019-01-01.yang"), []byte("module zza {\n  namespace \"urn:zza\";\n  prefix a;\n  revision 2019-01-01;\n  typedef t { type int8 { range \"0..19\"; } }\n}\n"), 0o644)
+					defer os.RemoveAll(dir)
+					if err := ms.Read(filepath.Join(dir, o.Name)); err != nil {
+						bad("good-text-rejected", err.Error(), nil)
+						return
+					}
+					good = append(good, op{Kind: "goodread", Name: filepath.Join(dir, o.Name)})
+					lastClean = false
 				case "goodreadaug":
 					// a module read from a directory that also holds what it imports: Process
 					// fetches those, and one of them augments another
